@@ -27,6 +27,7 @@ import BW.Proofs.Determinism
 import BW.Proofs.ClauseOrder
 import BW.Proofs.PlannerCorollaries
 import BW.Proofs.Par
+import BW.Proofs.Projection
 import BW.Generated.ParFacts
 
 namespace BW.Props.C14
@@ -174,6 +175,24 @@ theorem planner_monotone {gs gs' : List QGraph} {F : Facts} (hF : BW.Proofs.Stor
     ∀ r ∈ out.rows, ∃ r' ∈ out'.rows, BW.Proofs.ClauseOrder.RowEq r r' :=
   BW.Proofs.Planner.planner_monotone hF hg hg' U U' lo c0 cs hsub hpc hpc' h0 out out' h h'
 
+/-! ### The order of the SELECT list -/
+
+/-- Writing the SELECT list in another order permutes the columns and nothing else: in the reference every
+    column shows the same cell, and (C03, `projection_is_simultaneous`: since 1cfe61b without a condition on
+    the alias names) the planner's projection shows the reference's cells. Before 1cfe61b
+    `select ?s as ?o, ?o as ?x` and `select ?o as ?x, ?s as ?o` disagreed on `?x`. -/
+theorem projection_order_invariant (ps ps' : List Proj) (hp : ps.Perm ps') (hn : (ps.map Proj.out).Nodup)
+    (hb : ∀ p ∈ ps, p.binding ≠ []) (r : Row) (hr : ∀ p ∈ ps, r.has p.binding = true) :
+    (∀ k, (project ps r).get k = (project ps' r).get k) ∧
+    (∀ p ∈ ps, (projectRow ps r).get p.out = (projectRow ps' r).get p.out) := by
+  refine ⟨BW.Proofs.Projection.project_perm ps ps' hp hn hb r, ?_⟩
+  intro p hpm
+  have hn' : (ps'.map Proj.out).Nodup := (hp.map Proj.out).nodup_iff.mp hn
+  rw [BW.Proofs.Projection.projection_spec ps r hb hn hr p hpm,
+    BW.Proofs.Projection.projection_spec ps' r (fun q hq => hb q (hp.mem_iff.mpr hq)) hn'
+      (fun q hq => hr q (hp.mem_iff.mpr hq)) p (hp.mem_iff.mp hpm)]
+  exact BW.Proofs.Projection.project_perm ps ps' hp hn hb r p.out
+
 /-! ### Scheduling: the goroutines of the per-row join -/
 
 /-- Regenerated obligation (`parfacts`, go/ast): the goroutines `specifyClauseWithTable` starts — one per row —
@@ -225,3 +244,4 @@ end BW.Props.C14
 #print axioms BW.Props.C14.per_row_goroutines_share_only_the_locked_table
 #print axioms BW.Props.C14.per_row_join_schedule_independent
 #print axioms BW.Props.C14.per_row_join_progress
+#print axioms BW.Props.C14.projection_order_invariant
